@@ -68,8 +68,10 @@ def gen_plan(rng, tier):
         elif r < 0.88:
             op.update({"op": "construct_fuzz", "seed": rng.getrandbits(30)})
         elif r < 0.905:
-            op.update({"op": "linalg", "f": rng.choice(["matmul", "inv", "det", "eigh", "jack_matmul", "einsum", "svd"]), "k": rng.randrange(64)})
-        elif r < 0.94:
+            op.update({"op": "linalg", "f": rng.choice(["matmul", "inv", "det", "eigh", "jack_matmul", "einsum", "svd", "cholesky", "eigv", "eig", "pinv"]), "k": rng.randrange(64)})
+        elif r < 0.925:
+            op.update({"op": "producer", "f": rng.choice(["special", "special", "pseudo", "gen_corr", "mpm", "m_eff", "eigenvalue", "derived_array"]), "k": rng.randrange(64), "seed": rng.getrandbits(30)})
+        elif r < 0.95:
             op.update({"op": "interrupt", "f": rng.choice(["add", "mul", "div", "exp", "gm", "json"]), "frac": round(rng.random(), 4)})
         elif r < 0.97:
             op.update({"op": "gm"})
@@ -605,6 +607,14 @@ def step(ctx, op, pool, a, b, plan, pe):
                 res = pe.linalg.eigh(M)
             elif f == "svd":
                 res = pe.linalg.svd(M)
+            elif f == "cholesky":
+                res = pe.linalg.cholesky(M)
+            elif f == "eigv":
+                res = pe.linalg.eigv(M)
+            elif f == "eig":
+                res = pe.linalg.eig(M)
+            elif f == "pinv":
+                res = pe.linalg.pinv(M)
             elif f == "einsum":
                 if len(o1.mc_names) != 1 or o1.names != o2.names or o1.names != o3.names or o1.cov_names or len(o1.names) != 1:
                     return []
@@ -629,6 +639,94 @@ def step(ctx, op, pool, a, b, plan, pe):
         for r_ in flat:
             check(ctx, r_, "linalg." + f, "-")
         return flat[:1]
+    if kind == "producer":
+        # further library functions that return observables: special functions, generators of synthetic data (their
+        # random numbers come from the global NumPy generator, which the simulation seeds), matrix pencil, effective masses
+        f = op["f"]
+        obs = [obs_only(x, pe) for x in pool]
+        o1, o2, o3, o4 = (obs[(op["i"] + t) % len(obs)] for t in range(4))
+        rr = random.Random(kernel.H("prod", op["seed"]))
+        np.random.seed(kernel.H("nprand", op["seed"]) % (2 ** 32))
+        disc = "-"
+        try:
+            if f == "special":
+                name, args = rr.choice([("erf", "x"), ("erfc", "x"), ("erfinv", "u"), ("erfcinv", "u"), ("expit", "x"), ("logit", "u"), ("gamma", "p"), ("gammaln", "p"),
+                                        ("rgamma", "p"), ("digamma", "p"), ("psi", "p"), ("polygamma", "1p"), ("i0", "x"), ("i1", "x"), ("j0", "x"), ("j1", "x"),
+                                        ("y0", "p"), ("y1", "p"), ("iv", "2p"), ("ive", "2p"), ("jn", "2p"), ("yn", "2p"), ("kn", "2p"), ("beta", "2p"), ("betaln", "2p"),
+                                        ("betainc", "abu"), ("gammainc", "2p"), ("gammaincc", "2p"), ("multigammaln", "p2"), ("logsumexp", "x"), ("gammasgn", "p")])
+                disc = name
+                fn = getattr(pe.special, name)
+                z = o1 * (1.0 / max(abs(o1.value), 1e-300))         # central value +-1
+                pos = z * z + 0.5                                   # about 1.5
+                unit = 0.3 + 0.1 * z                                # inside (0, 1)
+                x0 = {"x": z, "u": unit, "p": pos, "1p": pos, "2p": pos, "abu": unit, "p2": pos + 1.0}[args]
+                call = {"x": lambda v: fn(v), "u": lambda v: fn(v), "p": lambda v: fn(v), "1p": lambda v: fn(1, v), "2p": lambda v: fn(2, v),
+                        "abu": lambda v: fn(1.5, 2.5, v), "p2": lambda v: fn(v, 2)}[args]
+                res = pe.derived_observable(lambda x, **kw: call(x[0]), [x0])
+            elif f == "pseudo":
+                nm = rr.choice(["A|r1", "Pens", "B2|rep3"])
+                res = pe.pseudo_Obs(rr.choice([0.0, 1.5, -2e-4, 1e6]), rr.choice([0.0, 0.1, 1e-9, 3.0]), nm, samples=rr.choice([5, 17, 100]))
+                disc = "dvalue0" if res.is_zero() else "-"
+            elif f == "gen_corr":
+                dim = rr.choice([1, 2, 3])
+                A_ = np.array([[rr.uniform(-1, 1) for _ in range(dim)] for _ in range(dim)])
+                res = pe.misc.gen_correlated_data([rr.uniform(-2, 2) for _ in range(dim)], A_ @ A_.T + 0.1 * np.eye(dim), rr.choice(["Gens|r1", "Gens"]),
+                                                  tau=rr.choice([0.5, 2.0, [0.5] * dim]), samples=rr.choice([10, 50]))
+                disc = "dim%d" % dim
+            elif f == "mpm":
+                if o1.cov_names:
+                    return []
+                base = [o1 * 0.0 + (np.exp(-0.3 * t) + 0.5 * np.exp(-0.9 * t)) * (1.0 + 0.01 * (o1 - o1.value) * (1 + 0.1 * t)) for t in range(10)]
+                res = pe.mpm.matrix_pencil_method(base, k=rr.choice([1, 2]))
+            elif f in ("m_eff", "eigenvalue"):
+                if o1.cov_names:
+                    return []
+                fl = (o1 - o1.value)
+                if f == "m_eff":
+                    T = 8
+                    var = rr.choice(["log", "cosh", "sinh", "periodic", "arccosh", "logsym"])
+                    disc = var
+                    if var in ("cosh", "periodic", "arccosh"):
+                        cont = [(np.exp(-0.4 * t) + np.exp(-0.4 * (T - t))) * (1.0 + 0.01 * fl * (1 + 0.05 * t)) for t in range(T + 1)]
+                    elif var == "sinh":
+                        cont = [(np.exp(-0.4 * t) - np.exp(-0.4 * (T - t))) * (1.0 + 0.01 * fl * (1 + 0.05 * t)) for t in range(T + 1)]
+                    else:
+                        cont = [np.exp(-0.4 * t) * (1.0 + 0.01 * fl * (1 + 0.05 * t)) for t in range(T)]
+                    if rr.random() < 0.4:
+                        cont[rr.randrange(1, len(cont) - 1)] = None
+                    c = pe.Corr(cont)
+                    res = c.m_eff(var).content
+                else:
+                    mats = []
+                    for t in range(6):
+                        e0, e1 = np.exp(-0.3 * t), np.exp(-0.8 * t)
+                        mats.append(np.array([[(e0 + 0.25 * e1) * (1 + 0.01 * fl), (0.5 * e1 - 0.5 * e0) * (1 + 0.01 * fl)], [(0.5 * e1 - 0.5 * e0) * (1 + 0.01 * fl), (0.25 * e0 + e1) * (1 + 0.01 * fl)]], dtype=object))
+                    c = pe.Corr(mats)
+                    res = c.Eigenvalue(t0=1, ts=rr.choice([None, 3]), state=rr.choice([0, 1])).content
+            else:
+                if o1.cov_names or o2.cov_names:
+                    pass
+                from pyerrors.linalg import derived_observable as derived_array
+                M = np.array([[o1 + 5.0, o2 * 0.1], [o2 * 0.1, o3 + 7.0]], dtype=object)
+                res = derived_array(lambda x, **kw: x @ x.T if rr else x, [M])
+        except Exception as e:
+            ctx.probe("producer_raised_" + f + "_" + type(e).__name__)
+            return []
+        ctx.sig("producer", f, disc)
+        flat = []
+
+        def walk2(x):
+            if isinstance(x, (pe.Obs, pe.CObs)):
+                flat.append(x)
+            elif isinstance(x, (list, tuple, np.ndarray)):
+                for e in (x.ravel() if isinstance(x, np.ndarray) else x):
+                    walk2(e)
+        walk2(res)
+        if not flat:
+            ctx.probe("producer_no_obs_" + f)
+        for r_ in flat:
+            check(ctx, r_, "producer." + f, disc)
+        return [x for x in flat[:1] if isinstance(x, pe.Obs) and np.isfinite(x.value)]
     if kind == "construct_fuzz":
         # arbitrary constructor arguments; an independent predicate (transcribed from the statement) says whether the
         # request is well-formed: well-formed -> must construct a well-formed Obs, malformed -> must raise
